@@ -36,9 +36,10 @@ type c05Clone struct {
 
 func init() {
 	register(&Prop{ID: "C05", Run: c05Run,
-		Rule: "pairs/triples of nodes (containers, lists, leaves) generated as near-misses of one another (one key more/less, one leaf changed, list reordered, kind swapped) and independently; thorough tier adds all ordered pairs of all nodes up to 4 nodes over keys {a,b} and scalars {1,2,null}; clone cases edit one side after Clone. A case is non-trivial when at least one side is a composite with a child; distinct = distinct canonical case JSON (hash).",
+		Rule: "pairs/triples of nodes (containers, lists, leaves) generated as near-misses of one another (one key more/less, one leaf changed, list reordered, kind swapped) and independently; thorough tier adds all ordered pairs of all nodes up to 4 nodes over keys {a,b} and scalars {1,2,null}; clone cases edit one side after Clone; heap-clone cases build the document in one of seven ways (FromMap, AddValue/ListNode with own or shared nil leaves, AddContainer/AddList/Set/Append, shared subtrees, containers with an add-and-remove history), encode the real object graph as an explicit heap by pointer identity, Clone, and compare the sharing map (which result node is which input object / a new object) with the heap model, then write in place to every container/list object of the original and of the clone. A case is non-trivial when at least one side is a composite with a child; distinct = distinct canonical case JSON (hash).",
 		Assumptions: []string{"scalars are NaN-free and -0-free, so cmp.Equal on leaves coincides with equality of (Go type, fmt.Sprint) pairs",
-			"keys come from a path-safe pool (no key ends in an index group: the API invariant discussed under D26)"}})
+			"keys come from a path-safe pool (no key ends in an index group: the API invariant discussed under D26)",
+			"heap tie: a node object is identified by the address its pointer holds (a sealed view and its builder are one object), a children map by the address of its header (Children() returns the map itself); item slices are not observable by identity and are covered by the in-place write probes; leaf values are immutable scalars"}})
 	evals["C05"] = c05Eval
 	shrinkers["C05"] = shrinkJSON
 }
@@ -140,12 +141,20 @@ func c05Run(c *Ctx) {
 		}
 		c.Do("clone", cl)
 	}
+	// pointer level: the real object graph against the heap model's sharing map (heap_share.go)
+	heapCloneGen(c, g, c.N(700))
 	if c.Thorough() && !c.searchMode {
 		all := enumNodes(4)
 		c.Note("exhaustive scope: %d nodes of size <= 4, %d ordered pairs", len(all), len(all)*len(all))
 		for _, x := range all {
 			for _, y := range all {
 				c.Do("pair", c05Pair{x, y})
+			}
+		}
+		// every small node, built in every way, cloned at pointer level
+		for i, x := range all {
+			for mode := 0; mode < heapBuildModes; mode++ {
+				c.Do("heap-clone", heapCloneCase{X: x, Build: mode, Salt: i})
 			}
 		}
 	}
@@ -334,6 +343,8 @@ func applyDomEdit(cb dom.ContainerBuilder, e domEdit) {
 
 func c05Eval(c *Ctx, kind string, raw []byte) {
 	switch kind {
+	case "heap-clone":
+		heapCloneEval(c, raw)
 	case "pair":
 		var p c05Pair
 		if err := json.Unmarshal(raw, &p); err != nil {
